@@ -8,6 +8,8 @@ From Coq Require Import List Arith Bool Lia.
 Import ListNotations.
 From ZI Require Import Model.Ro Model.Adapter Model.Lookup Model.RegSys
      Spec.LookupSpec Proofs.LookupSpec Proofs.LookupInv.
+From ZI Require Import Model.Trie Model.WalkersVocab Gen.WalkersKernel Model.Bookkeeping Spec.TrieRel
+     Proofs.WalkersKernel.
 
 (* a returned value is registered under exactly that name, in some registry of the resolution
    order, with required specs extended-or-equalled position by position by the looked-up ones and
@@ -69,6 +71,62 @@ Theorem C04_system_inv : forall W, wf_world W ->
     Forall (ext_inv W) (ro_regs (final W call [] ops) r).
 Proof. exact system_inv_lemma. Qed.
 Print Assumptions C04_system_inv.
+
+(* ------------------------------------------------------------------ the kernel regenerated from adapter.py
+   Gen/WalkersKernel.v is rewritten from the current source text on every run (harness/translate/walkers.py,
+   fail closed): g_lookup / g_lookupAll / g_subscriptions (module-level walkers, on an explicit fuel),
+   g_uncached_* (AdapterLookupBase entry points), g_add_extendor / g_remove_extendor / g_init_extendors,
+   g_convert_None_to_Interface. *)
+
+(* the generated walkers are the hand-written nested-dictionary walkers of Model/Trie.v, for every
+   registry list and key; any fuel above the arity is sufficient *)
+Theorem C04_generated_walkers_eq_trie : forall W ts required,
+  (forall p n, g_uncached_lookup W ts required p n = t_uncached_lookup W ts required p n)
+  /\ (forall p, g_uncached_lookupAll W ts required p = t_uncached_lookupAll W ts required p)
+  /\ (forall p, g_uncached_subscriptions W ts required p = t_uncached_subscriptions W ts required p)
+  /\ (forall fuel c specs prov n, length specs < fuel ->
+        g_lookup fuel W c specs prov n 0 (length specs) = t_lookup W c specs prov n)
+  /\ (forall fuel c specs prov acc, length specs < fuel ->
+        g_lookupAll fuel W c specs prov acc 0 (length specs) = t_lookupAll W c specs prov acc)
+  /\ (forall fuel c specs prov acc, length specs < fuel ->
+        g_subscriptions fuel W c specs prov 0 acc 0 (length specs) = acc ++ t_subscriptions W c specs prov).
+Proof. exact generated_walkers_eq_trie_lemma. Qed.
+Print Assumptions C04_generated_walkers_eq_trie.
+
+(* the generated extendors surgery and None conversion are Model/Adapter.v's (the object of
+   C04_extendors_inv) *)
+Theorem C04_generated_extendors_eq_model : forall W,
+  (forall e p, g_add_extendor W e p = add_extendor W e p)
+  /\ (forall e p, g_remove_extendor W e p = remove_extendor W e p)
+  /\ (forall c, g_init_extendors W c = fold_left (add_extendor W) (map fst c) [])
+  /\ (forall x, g_convert_None_to_Interface x = conv x).
+Proof. exact generated_extendors_eq_model_lemma. Qed.
+Print Assumptions C04_generated_extendors_eq_model.
+
+(* on nested-dictionary registries that represent flat ones (R = Spec/TrieRel.v, preserved by every
+   mutator: C09) the generated entry points answer what Model/Adapter's uncached walkers answer *)
+Theorem C04_generated_walkers_eq_model : forall W ts rs required, Forall2 (R W) ts rs ->
+  (forall p n, g_uncached_lookup W ts required p n = uncached_lookup W rs required p n)
+  /\ (forall p, g_uncached_subscriptions W ts required p = uncached_subscriptions W rs required p)
+  /\ (forall p n, aget Nat.eqb (g_uncached_lookupAll W ts required p) n
+                  = aget Nat.eqb (uncached_lookupAll W rs required p) n).
+Proof. exact generated_walkers_eq_model_lemma. Qed.
+Print Assumptions C04_generated_walkers_eq_model.
+
+(* hence, for registries reached by ANY histories (nested dictionaries and flat map in lockstep), the
+   source-generated _uncached_lookup is complete and returns the preferred applicable registration *)
+Theorem C04_generated_lookup_meets_spec : forall W hs looked p n, wf_world W -> w_iface W p = true ->
+  let ro := reached_flat W hs in
+  (g_uncached_lookup W (reached_tries W hs) looked p n = None <->
+   forall r req pr v, In r ro -> live r req pr n v -> ~ applicable W req pr n looked p n)
+  /\ forall v, g_uncached_lookup W (reached_tries W hs) looked p n = Some v ->
+     exists iw rw reqw pw,
+       nth_error ro iw = Some rw /\ live rw reqw pw n v /\ applicable W reqw pw n looked p n /\
+       forall ic rc reqc pc vc,
+         nth_error ro ic = Some rc -> live rc reqc pc n vc -> applicable W reqc pc n looked p n ->
+         preferred W looked iw reqw pw ic reqc pc.
+Proof. exact generated_lookup_meets_spec_lemma. Qed.
+Print Assumptions C04_generated_lookup_meets_spec.
 
 (* ------------------------------------------------------------------ non-vacuity *)
 (* world: 0 = Interface, 1 = IA, 2 = IB(IA), 3 = IC; everything is an interface *)
@@ -139,3 +197,22 @@ Proof. reflexivity. Qed.
 (* the extendors list in the example is [IA; IB] under IA: generalisations first *)
 Example ex_extendors : ext_get (extendors exReg) 1 = [1; 2].
 Proof. reflexivity. Qed.
+
+(* the generated kernel on the nested dictionaries of the same history *)
+Definition exBops : list bop :=
+  [BRegister [Some 1; Some 2] 1 0 (Some v1);
+   BRegister [Some 2; Some 1] 1 0 (Some v2);
+   BSubscribe [Some 1] (Some 2) v1;
+   BRegister [Some 1] 2 0 (Some v3);
+   BRegister [Some 1] 1 0 (Some v4);
+   BRegister [None] 1 1 (Some v3);
+   BRebuild;
+   BUnsubscribe [Some 1] (Some 2) None].
+
+Example ex_generated :
+  g_uncached_lookup exW (reached_tries exW [exBops]) [2; 2] 1 0 = Some v2
+  /\ g_uncached_lookup exW (reached_tries exW [exBops]) [2] 1 0 = Some v4
+  /\ g_uncached_lookup exW (reached_tries exW [exBops]) [3] 1 0 = None
+  /\ map vid (g_uncached_subscriptions exW (reached_tries exW [firstn 7 exBops]) [2] (Some 1)) = [1]
+  /\ g_uncached_lookupAll exW (reached_tries exW [exBops]) [3] 1 = [(1, v3)].
+Proof. repeat split; reflexivity. Qed.
